@@ -24,16 +24,19 @@ var peerTexts = []string{
 
 var proxyHeaders = []string{"", "", "X-Forwarded-For", "X-Forwarded-For", "X-Real-Ip", "x-real-ip", "Cf-Connecting-Ip", "X-FORWARDED-FOR"}
 
-var hosts = []string{"example.com", "a.b.example.com:8080", "EXAMPLE.com", "localhost", "[::1]:3000", "x.y.z.w.v", "app.example.co.uk", "example.com:443", ""}
+var hosts = []string{"example.com", "a.b.example.com:8080", "EXAMPLE.com", "localhost", "[::1]:3000", "x.y.z.w.v", "app.example.co.uk", "example.com:443", "",
+	"[2001:db8::1]", "[2001:db8::1]:443", "example.com:", "1.2.3.4", "1.2.3.4:80", "sub.example.com.", "a.b.c.d.e.f.g:1"}
 
 var xffVals = []string{"1.2.3.4", "1.2.3.4, 5.6.7.8", " 9.9.9.9 ", "bogus", "bogus, 1.1.1.1", "::1", "2001:db8::5",
 	"0:0:0:0:0:0:0:00001", "1.2.3.4.5", "01.2.3.4", ",1.2.3.4", "::ffff:1.2.3.4", "256.1.1.1", "1.2.3.4,", ", ,5.5.5.5",
 	"unknown, 10.0.0.1", "1.2.3.4:8080", "[2001:db8::1]", "fe80::1%eth0, 7.7.7.7", "1.2.3", "1..2.3", ":", ".", "1.2.3.4 , 2001:db8::7",
 	"a:b:c:d:e:f:0:1", "1:2:3:4:5:6:7:8:9", "::1.2.3.4", "1:2:3:4:5:6:1.2.3.4", "12345::", "g::1", "7.7.7.7,8.8.8.8,9.9.9.9", "x"}
-var xfhVals = []string{"evil.com", "evil.com, other.com", "a.b.evil.com:8080", "EVIL.com", "e.v.i.l", ",x.com", "evil.com,"}
-var protoVals = []string{"https", "http", "https,http", "http,https", "HTTPS", "wss", "https, http", ","}
-var sslVals = []string{"on", "off", "ON", "on "}
-var schemeVals = []string{"https", "http", "ftp", "HTTPS"}
+var xfhVals = []string{"evil.com", "evil.com, other.com", "a.b.evil.com:8080", "EVIL.com", "e.v.i.l", ",x.com", "evil.com,",
+	"[2001:db8::1]:8080", "[::1]", "::1", "evil.com:", ":8080", "evil.com:8080, other.com:9090", "evil.com , other.com", "a.b.c.d.e.f", "",
+	"[2001:db8::1]:8080, [::2]:9", "1.2.3.4:80", "evil.com:80:90"}
+var protoVals = []string{"https", "http", "https,http", "http,https", "HTTPS", "wss", "https, http", ",", "", "https ,http", ",https", "https,", "on", "http, https"}
+var sslVals = []string{"on", "off", "ON", "on ", "", "On", "1", "on,off", "true"}
+var schemeVals = []string{"https", "http", "ftp", "HTTPS", "", "https,http", "wss", "on"}
 
 var commonHeaders = [][2]string{{"User-Agent", "ua/1.0"}, {"Accept", "*/*"}, {"X-Custom", "1"}, {"X-Forwarded-Port", "8443"},
 	{"X-Forwarded-Server", "edge1"}, {"Forwarded", "for=1.2.3.4;proto=https"}, {"X-Url-Schemes", "https"}, {"X-Forwarded-Prot", "https"},
@@ -209,11 +212,101 @@ func genCfg(r *gen.Rand, cn connIn) cfgIn {
 	return c
 }
 
+// v6Text prints eight random groups in one of the RFC 4291 text forms (full, compressed anywhere, with
+// a dotted-quad tail, upper case, zero padded) and then, half of the time, damages it in one place: the
+// inputs on which fiber's validators (isIPv6 scan + utils.IsIPv6) and the grammar could part.
+func v6Text(r *gen.Rand) string {
+	g := make([]uint16, 8)
+	for i := range g {
+		switch r.Intn(4) {
+		case 0:
+			g[i] = 0
+		case 1:
+			g[i] = uint16(r.Intn(16))
+		default:
+			g[i] = uint16(r.Intn(65536))
+		}
+	}
+	hexf := gen.Pick(r, []string{"%x", "%x", "%X", "%04x", "%03x"})
+	grp := func(x uint16) string { return fmt.Sprintf(hexf, x) }
+	n := 8
+	tail := ""
+	if r.Chance(1, 4) { // dotted quad for the last two groups
+		n = 6
+		tail = fmt.Sprintf("%d.%d.%d.%d", g[6]>>8, g[6]&0xff, g[7]>>8, g[7]&0xff)
+	}
+	parts := make([]string, 0, 9)
+	for i := 0; i < n; i++ {
+		parts = append(parts, grp(g[i]))
+	}
+	if tail != "" {
+		parts = append(parts, tail)
+	}
+	var s string
+	switch r.Intn(4) {
+	case 0: // full form
+		s = strings.Join(parts, ":")
+	default: // "::" in place of parts[a:b] (possibly of no part at all, or of non-zero ones: the text is what counts)
+		a := r.Intn(len(parts) + 1)
+		b := a + r.Intn(len(parts)-a+1)
+		if tail != "" && b == len(parts) && a < b {
+			b--
+		}
+		s = strings.Join(parts[:a], ":") + "::" + strings.Join(parts[b:], ":")
+	}
+	if r.Bool() {
+		return s
+	}
+	i := 0
+	if len(s) > 0 {
+		i = r.Intn(len(s))
+	}
+	switch r.Intn(10) {
+	case 0: // one more digit in a group
+		return s[:i] + gen.Pick(r, []string{"0", "1", "f", "F"}) + s[i:]
+	case 1: // one more group
+		return s + ":" + grp(uint16(r.Intn(65536)))
+	case 2:
+		return gen.Pick(r, []string{"1:", ":", "0:0:"}) + s
+	case 3:
+		return s + gen.Pick(r, []string{":", "::", ".1", ":1.2.3.4", "%eth0", "/64"})
+	case 4: // a byte replaced
+		if len(s) == 0 {
+			return ":"
+		}
+		return s[:i] + gen.Pick(r, []string{"g", ":", ".", " ", "-", "::"}) + s[i+1:]
+	case 5: // a byte dropped
+		if len(s) == 0 {
+			return s
+		}
+		return s[:i] + s[i+1:]
+	case 6:
+		return "[" + s + "]"
+	case 7:
+		return strings.Replace(s, ":", "::", 1)
+	case 8:
+		return strings.Replace(s, "::", ":", 1)
+	default:
+		return strings.Replace(s, ".", ".0", 1)
+	}
+}
+
+func xffVal(r *gen.Rand) string {
+	switch r.Intn(6) {
+	case 0:
+		return v6Text(r)
+	case 1:
+		return gen.Pick(r, []string{"", " ", "bogus, ", "1.2.3.4, ", ",", "unknown,"}) + v6Text(r) + gen.Pick(r, []string{"", " ", ", 9.9.9.9", ",", " , " + v6Text(r)})
+	default:
+		return gen.Pick(r, xffVals)
+	}
+}
+
 func genFwd(r *gen.Rand, phdr string) [][2]string {
 	var out [][2]string
 	add := func(k, v string) { out = append(out, [2]string{variant(r, k), v}) }
 	if r.Chance(2, 3) {
-		add("X-Forwarded-For", gen.Pick(r, xffVals))
+		add("X-Forwarded-For", xffVal(r))
 	}
 	if r.Chance(1, 2) {
 		add("X-Forwarded-Host", gen.Pick(r, xfhVals))
@@ -231,11 +324,28 @@ func genFwd(r *gen.Rand, phdr string) [][2]string {
 		add("X-Url-Scheme", gen.Pick(r, schemeVals))
 	}
 	if phdr != "" && !strings.EqualFold(phdr, "X-Forwarded-For") && r.Chance(2, 3) {
-		add(phdr, gen.Pick(r, xffVals))
+		add(phdr, xffVal(r))
 	}
 	if r.Chance(1, 8) { // duplicates
 		add("X-Forwarded-For", gen.Pick(r, xffVals))
 		add("X-Forwarded-Host", gen.Pick(r, xfhVals))
+	}
+	if r.Chance(1, 6) { // the same scheme header twice, or all four at once: only the order decides
+		switch r.Intn(5) {
+		case 0:
+			add("X-Forwarded-Proto", gen.Pick(r, protoVals))
+		case 1:
+			add("X-Forwarded-Protocol", gen.Pick(r, protoVals))
+		case 2:
+			add("X-Forwarded-Ssl", gen.Pick(r, sslVals))
+		case 3:
+			add("X-Url-Scheme", gen.Pick(r, schemeVals))
+		default:
+			add("X-Forwarded-Proto", gen.Pick(r, protoVals))
+			add("X-Forwarded-Protocol", gen.Pick(r, protoVals))
+			add("X-Forwarded-Ssl", gen.Pick(r, sslVals))
+			add("X-Url-Scheme", gen.Pick(r, schemeVals))
+		}
 	}
 	// shuffle
 	for i := len(out) - 1; i > 0; i-- {
